@@ -33,6 +33,7 @@ def run(ctx):
     check_dispatch(ctx)
     check_foreign(ctx)
     check_mapper_method_names(ctx)
+    check_derivation_rule(ctx)
     check_traversals(ctx)
     if ctx.tier == "thorough":
         check_synthetic_hierarchies(ctx)
@@ -345,6 +346,28 @@ def check_mapper_method_names(ctx):
                if ok else
                f"no mapper in the package defines {n.mapper_method}: the derived "
                f"name of {n.name} matches no handler")
+
+
+PROBE_NAMES = ["FooBar", "DOFVector", "CSEPlaceholder", "HTTPServerError", "X",
+               "XY", "XYz", "aB", "Call", "CallWithKwargs", "_ShiftOperator",
+               "MyNode2D", "ABCDef", "NaN"]
+
+
+def check_derivation_rule(ctx):
+    """the derivation rule read from the source (regex + template) against the
+    documented CamelCase -> snake_case convention, on probe names that cover
+    both alternatives of the regex (lower->Upper and ACRONYM->Word)"""
+    nt = ctx.model.nodes
+    loc = "pymbolic/primitives.py"
+    for name in PROBE_NAMES:
+        got = nt.derive_mapper_method(name)
+        want = "map_" + _snake(name)
+        ctx.ob(f"N2/derivation/{name}", got == want, loc,
+               f"{name} -> {got}" if got == want else
+               f"the handler-name derivation maps a class named {name} to "
+               f"{got}; the documented CamelCase -> snake_case name is {want} "
+               "(user node classes with such names are dispatched to the wrong "
+               "handler name)")
 
 
 def _snake(name):
